@@ -104,7 +104,12 @@ func runC05Cmd(c *vh.Case, spec c05CmdSpec) {
 	var tcMu sync.Mutex
 	tcCalled, tcReturned := 0, 0
 	tr := closeSpy{t: &mcp.CommandTransport{Command: cmd, TerminateDuration: td}, before: func() { tcMu.Lock(); tcCalled++; tcMu.Unlock(); log.Add("transport-close-called") },
-		after: func(err error) { tcMu.Lock(); tcReturned++; tcMu.Unlock(); log.Add("transport-close-returned", "err", fmt.Sprint(err)) }}
+		after: func(err error) {
+			tcMu.Lock()
+			tcReturned++
+			tcMu.Unlock()
+			log.Add("transport-close-returned", "err", fmt.Sprint(err))
+		}}
 	cs, err := client.Connect(ctx, tr, nil)
 	if err != nil {
 		c.Inconclusive("connect to the child failed: %v", err)
